@@ -2,12 +2,15 @@
      pyxel/data_structure/array.py   ArrayBase: _validate, array setter/getter, update, empty, __iadd__, __add__, __eq__
      pyxel/data_structure/photon.py  Photon: array / array_3d setters and getters, __iadd__, __add__, __eq__, empty
      pyxel/data_structure/pixel.py   Pixel.empty (zeros), Pixel.update
-     pyxel/detectors/detector.py     bucket setters (photon: raw `_array` copy; pixel/signal/image: through `.array`),
+     pyxel/detectors/detector.py     bucket setters (photon: dispatch to the validating Photon setters -- or, before the
+                                     repair of C13-F2c, a raw `_array` copy; pixel/signal/image: through `.array`),
                                      Detector.empty(reset);  pyxel/detectors/mkid/mkid.py  MKID.empty (phase *= 0)
-   The code is modelled as it is, defects included.  What is declarative in the source is a parameter
-   (`tables`): the TYPE_LIST of every class, which guards the validating functions contain, what each
-   Detector setter does, and numpy's in-place casting rule (read from the installed numpy).  The check
-   instantiates it with Gen_C13.src_tables, regenerated on every run.
+   The code is modelled as it is.  What is declarative in the source is a parameter (`tables`): the TYPE_LIST of
+   every class, which guards the validating functions contain, what each Detector setter does, which of the two
+   known shapes Photon.__iadd__/__add__ (raw store / through the setters) and ArrayBase.__eq__ / Photon.__eq__
+   have, and numpy's in-place casting rule (read from the installed numpy).  The check instantiates it with
+   Gen_C13.src_tables, regenerated on every run; the shapes of the code before the repairs of C13-F2a/b/c and
+   C13-F3a/b/c stay representable, so that a regression yields tables for which `tables_ok` is false.
    No proofs in this file. *)
 From Coq Require Import ZArith List Bool Arith.
 Import ListNotations.
@@ -124,6 +127,7 @@ Definition xinfo_eqb (a b : xinfo) : bool :=
 Definition prod_shape (s : list nat) : nat := fold_right Nat.mul 1 s.
 
 Definition is_xr (a : arr) : bool := match a_xr a with Some _ => true | None => false end.
+Definition is_none_arr (o : option arr) : bool := match o with None => true | Some _ => false end.
 
 Definition as_numpy (a : arr) : arr :=          (* np.asarray(value) *)
   {| a_xr := None; a_shape := a_shape a; a_dt := a_dt a; a_data := a_data a |}.
@@ -187,7 +191,38 @@ Definition guard := option exc.
 Inductive setter_kind :=
   | SetterValidating      (* self.<bucket>.array = obj.array *)
   | SetterRaw             (* self.<bucket>._array = obj._array *)
+  | SetterDispatch        (* photon:  obj._array is None -> self.photon.empty();  ndarray -> self.photon.array = obj.array;
+                                       otherwise -> self.photon.array_3d = obj.array_3d *)
   | SetterNone.           (* the detector has no setter for this bucket *)
+
+(* the tail of Photon.__iadd__ / Photon.__add__ (after the two isinstance guards) *)
+Inductive iadd_kind :=
+  | IAddRaw               (* if self._array is not None: self._array += other   else: self._array = other *)
+  | IAddSetters.          (* empty: self.array_3d = other / self.array = other (by operand type);
+                             DataArray content: self.array_3d += other;  ndarray content: self.array += other *)
+
+(* ArrayBase.__iadd__ / __add__ on an initialised container *)
+Inductive base_iadd_kind :=
+  | BIInPlace             (* self.array += other          (in-place addition on the STORED array, then the setter) *)
+  | BIOnCopy.             (* new = self._array.copy(); new += other; self.array = new *)
+
+(* ArrayBase.__eq__ after the type-and-shape test *)
+Inductive eq_kind :=
+  | EqLeftOnly            (* if self._array is not None: np.array_equal(self.array, other.array)   else True *)
+  | EqBothNone.           (* one side None -> (both None);  otherwise np.array_equal(self._array, other._array) *)
+
+(* what `<class>.empty()` leaves in the container *)
+Inductive empty_kind :=
+  | EmptyNone             (* self._array = None *)
+  | EmptyZeros.           (* self._array = np.zeros(shape=self._shape, dtype=float) *)
+
+(* what `update(None)` does *)
+Inductive upd_none_kind :=
+  | UpdCallsEmpty         (* self.empty() *)
+  | UpdNone.              (* self._array = None *)
+
+(* Detector.empty(reset): `self.<bucket>.empty()` unconditionally / under `if reset:` / not at all *)
+Inductive dempty_kind := DAlways | DIfReset | DNever.
 
 Record tables := {
   type_list : ckind -> list dtype;
@@ -200,7 +235,24 @@ Record tables := {
   (* Photon.array_3d setter *)
   q_type : guard; q_dtype : guard; q_ndim : guard; q_dims : guard; q_shape : guard; q_coord : guard;
   q_clip : bool;
-  det_setter : ckind -> setter_kind
+  det_setter : ckind -> setter_kind;
+  ph_iadd : iadd_kind;                 (* Photon.__iadd__ *)
+  ph_add : iadd_kind;                  (* Photon.__add__ *)
+  b_iadd : base_iadd_kind;             (* ArrayBase.__iadd__ *)
+  b_add : base_iadd_kind;              (* ArrayBase.__add__ *)
+  base_eq : eq_kind;                   (* ArrayBase.__eq__ *)
+  ph_eq_geom : bool;                   (* Photon.__eq__ compares (_num_rows, _num_cols) *)
+  (* getters: `if <test>: raise E` guards before `return self._array` *)
+  rd_base : guard;                     (* ArrayBase.array: not initialised *)
+  rd_ph2_none : guard; rd_ph2_xr : guard;     (* Photon.array: None; a DataArray is stored *)
+  rd_ph3_none : guard; rd_ph3_np : guard;     (* Photon.array_3d: None; an ndarray is stored *)
+  aa_base : guard;                     (* ArrayBase.__array__: `not isinstance(self._array, np.ndarray)` *)
+  aa_ph_none : guard;                  (* Photon.__array__: None (then np.asarray(self.array)) *)
+  (* resets *)
+  empty_of : ckind -> empty_kind;      (* <class>.empty() *)
+  upd_none : ckind -> upd_none_kind;   (* <class>.update(None)   (ArrayBase classes) *)
+  d_empty : ckind -> dempty_kind;      (* Detector.empty(reset) *)
+  mkid_phase_zero : bool               (* MKID.empty: `if reset and ... self._phase._array is not None: self.phase.array *= 0` *)
 }.
 
 (* the first guard, in source order, that is present and whose test is true *)
@@ -218,6 +270,7 @@ Inductive outcome :=
   | Raise (e : exc)
   | RetArr (a : arr)           (* value of a read *)
   | RetBool (b : bool)         (* value of a comparison *)
+  | RetNone                    (* a read of an empty container returned (None) instead of raising *)
   | Unmodelled.                (* operand combination outside the modelled domain (see `step`) *)
 
 Inductive op :=
@@ -232,7 +285,8 @@ Inductive op :=
   | OEq (o : container)         (* c == o *)
   | OEqRev (o : container)      (* o == c *)
   | ODAssign (o : container)    (* detector.<bucket> = o *)
-  | ODEmpty (reset : bool).     (* detector.empty(reset) *)
+  | ODEmpty (reset : bool)      (* detector.empty(reset) *)
+  | OAsArray.                   (* np.asarray(c)  (the `__array__` protocol: a read) *)
 
 Section WithTables.
 Variable tb : tables.
@@ -254,11 +308,14 @@ Definition base_set (c : container) (a : arr) : container * outcome :=
 Definition clip_arr (a : arr) : arr := with_data a (map cell_clip0 (a_data a)).
 
 (* Photon.array setter *)
+Definition photon_check2d (c : container) (a : arr) : option exc :=
+  first_fail [ (p_type tb, is_xr a);
+               (p_dtype tb, negb (in_type_list Photon (a_dt a)));
+               (p_ndim tb, negb (Nat.eqb (length (a_shape a)) 2));
+               (p_shape tb, negb (shape_eqb (a_shape a) [c_rows c; c_cols c])) ].
+
 Definition photon_set2d (c : container) (a : arr) : container * outcome :=
-  match first_fail [ (p_type tb, is_xr a);
-                     (p_dtype tb, negb (in_type_list Photon (a_dt a)));
-                     (p_ndim tb, negb (Nat.eqb (length (a_shape a)) 2));
-                     (p_shape tb, negb (shape_eqb (a_shape a) [c_rows c; c_cols c])) ] with
+  match photon_check2d c a with
   | Some e => (c, Raise e)
   | None => (with_content c (Some (if p_clip tb then clip_arr a else a)), Done)
   end.
@@ -292,13 +349,16 @@ Definition dims_wyx (a : arr) : bool :=
   match a_xr a with Some xi => shape_eqb (x_dims xi) [0; 1; 2] | None => false end.
 
 (* Photon.array_3d setter *)
+Definition photon_check3d (c : container) (a : arr) : option exc :=
+  first_fail [ (q_type tb, negb (is_xr a));
+               (q_dtype tb, negb (in_type_list Photon (a_dt a)));
+               (q_ndim tb, negb (Nat.eqb (length (a_shape a)) 3));
+               (q_dims tb, negb (dims_wyx a));
+               (q_shape tb, negb (yx_sizes_ok c a));
+               (q_coord tb, negb (has_wl_coord a)) ].
+
 Definition photon_set3d (c : container) (a : arr) : container * outcome :=
-  match first_fail [ (q_type tb, negb (is_xr a));
-                     (q_dtype tb, negb (in_type_list Photon (a_dt a)));
-                     (q_ndim tb, negb (Nat.eqb (length (a_shape a)) 3));
-                     (q_dims tb, negb (dims_wyx a));
-                     (q_shape tb, negb (yx_sizes_ok c a));
-                     (q_coord tb, negb (has_wl_coord a)) ] with
+  match photon_check3d c a with
   | Some e => (c, Raise e)
   | None => (with_content c (Some (if q_clip tb then clip_arr a else a)), Done)
   end.
@@ -309,48 +369,92 @@ Definition np_iadd (cur a : arr) : arr + exc :=
   else if negb (broadcastable (a_shape a) (a_shape cur)) then inr ValueError
   else inl (with_data cur (zip_add (a_dt cur) (a_data cur) (bcast_data (a_shape cur) (a_shape a) (a_data a)))).
 
-(* xarray `cur += a` for two DataArrays.  Modelled only when both have dimensions
-   (wavelength, y, x) and a wavelength coordinate: indexes must be equal (MergeError, a ValueError),
-   sizes must match per name (ValueError), then numpy's casting rule (TypeError). *)
+(* xarray `cur += a` for two DataArrays, `cur` a well-formed photon cube (dims (wavelength, y, x), wavelength
+   coordinate).  xarray works by dimension NAME: `a` may have any subset of cur's dimensions in any order (it is
+   transposed / broadcast), with or without a wavelength coordinate.  In this order:
+     - `a` has a wavelength index that differs from cur's        -> MergeError (a ValueError): no re-alignment in place
+     - a shared dimension has another size (no size-1 broadcasting by name) -> ValueError
+     - `a` has a dimension cur does not have                      -> ValueError (dimensions cannot change in place)
+     - numpy's casting rule                                       -> TypeError
+   Not modelled (None): cur of another form, repeated dimension names. *)
+Fixpoint nodup_nat (l : list nat) : bool :=
+  match l with [] => true | h :: t => negb (existsb (Nat.eqb h) t) && nodup_nat t end.
+
+Definition xr_sizes_compat (cur a : arr) : bool :=
+  forallb (fun n => match dim_size a n, nth_error (a_shape cur) n with
+                    | Some s, Some t => Nat.eqb s t
+                    | _, _ => true
+                    end) [0; 1; 2].
+
+(* flat index into `a` of the element with coordinates `co` (indexed by dimension name) *)
+Definition xr_src_index (dims shape co : list nat) : nat :=
+  fold_left (fun acc ds => acc * snd ds + nth (fst ds) co 0) (combine dims shape) 0.
+
+Definition xr_bcast (cur a : arr) (dims : list nat) : list cell :=
+  match a_shape cur with
+  | [w; r; c] =>
+      map (fun i => nth (xr_src_index dims (a_shape a) [Nat.div i (r * c); Nat.modulo (Nat.div i c) r; Nat.modulo i c])
+                        (a_data a) NaN)
+          (seq 0 (w * r * c))
+  | _ => []
+  end.
+
 Definition xr_iadd (cur a : arr) : option (arr + exc) :=
   match a_xr cur, a_xr a with
   | Some xc, Some xa =>
-      if dims_wyx cur && dims_wyx a && has_wl_coord cur && has_wl_coord a
-         && Nat.eqb (length (a_shape cur)) 3 && Nat.eqb (length (a_shape a)) 3 then
-        if negb (opt_eqb zlist_eqb (x_wl xc) (x_wl xa)) then Some (inr ValueError)
-        else if negb (shape_eqb (a_shape cur) (a_shape a)) then Some (inr ValueError)
+      if dims_wyx cur && has_wl_coord cur && Nat.eqb (length (a_shape cur)) 3
+         && Nat.eqb (length (x_dims xa)) (length (a_shape a)) && nodup_nat (x_dims xa) then
+        if (match x_wl xa with Some _ => negb (opt_eqb zlist_eqb (x_wl xc) (x_wl xa)) | None => false end)
+        then Some (inr ValueError)
+        else if negb (xr_sizes_compat cur a) then Some (inr ValueError)
+        else if negb (forallb (fun n => Nat.ltb n 3) (x_dims xa)) then Some (inr ValueError)
         else if negb (iadd_ok tb (a_dt cur) (a_dt a)) then Some (inr TypeError)
-        else Some (inl (with_data cur (zip_add (a_dt cur) (a_data cur) (a_data a))))
+        else Some (inl (with_data cur (zip_add (a_dt cur) (a_data cur) (xr_bcast cur a (x_dims xa)))))
       else None
   | _, _ => None
   end.
 
+(* the result of `nd += a` as Python sees it: numpy adds in place into `nd` (a DataArray operand is taken by
+   position); with a DataArray operand the value of the expression is a DataArray (dims/coordinates of `a`)
+   wrapping the modified array *)
+Definition iadd_result (cur' a : arr) : arr :=
+  {| a_xr := a_xr a; a_shape := a_shape cur'; a_dt := a_dt cur'; a_data := a_data cur' |}.
+
 (* ArrayBase.__iadd__ / __add__ :
-     if self._array is not None: self.array += other      (getter, numpy in-place add, setter again)
+     if self._array is not None: self.array += other      (BIInPlace: getter, numpy in-place add on the stored
+                                                           object, setter on the value of the expression)
+                                  new = self._array.copy(); new += other; self.array = new      (BIOnCopy)
      else:                        self.array = other *)
-Definition base_iadd (c : container) (a : arr) : container * outcome :=
+Definition base_iadd (k : base_iadd_kind) (c : container) (a : arr) : container * outcome :=
   match c_content c with
   | None => base_set c a
   | Some cur =>
-      if is_xr a || is_xr cur then (c, Unmodelled)
-      else match np_iadd cur a with
+      if is_xr cur then (c, Unmodelled)
+      else match np_iadd cur (as_numpy a) with
            | inr e => (c, Raise e)
            | inl cur' =>
-               (* the in-place addition has happened; the setter validates the same object again *)
-               match validate_base c cur' with
-               | Some e => (with_content c (Some cur'), Raise e)
-               | None => (with_content c (Some cur'), Done)
+               match validate_base c (iadd_result cur' a) with
+               | Some e =>
+                   (* BIInPlace: the in-place addition has already happened on the stored object *)
+                   (match k with BIInPlace => with_content c (Some cur') | BIOnCopy => c end, Raise e)
+               | None => (with_content c (Some (iadd_result cur' a)), Done)
                end
            end
   end.
 
 (* Photon.__iadd__ / __add__ :
-     ndarray on a stored DataArray, DataArray on a stored ndarray -> TypeError
-     if self._array is not None: self._array += other
-     else:                        self._array = other           (stored as it is) *)
-Definition photon_iadd (c : container) (a : arr) : container * outcome :=
+     ndarray on a stored DataArray, DataArray on a stored ndarray -> TypeError; then the tail `k`:
+     IAddRaw      if self._array is not None: self._array += other   else: self._array = other   (stored as it is)
+     IAddSetters  empty: the setter chosen by the operand's type; otherwise `self.array += other` /
+                  `self.array_3d += other` = getter, in-place addition on the stored object, setter (validate, clip,
+                  copy) on the result *)
+Definition photon_iadd (k : iadd_kind) (c : container) (a : arr) : container * outcome :=
   match c_content c with
-  | None => (with_content c (Some a), Done)
+  | None =>
+      match k with
+      | IAddRaw => (with_content c (Some a), Done)
+      | IAddSetters => if is_xr a then photon_set3d c a else photon_set2d c a
+      end
   | Some cur =>
       match a_xr cur, a_xr a with
       | Some _, None => (c, Raise TypeError)
@@ -358,30 +462,62 @@ Definition photon_iadd (c : container) (a : arr) : container * outcome :=
       | None, None =>
           match np_iadd cur a with
           | inr e => (c, Raise e)
-          | inl cur' => (with_content c (Some cur'), Done)
+          | inl cur' =>
+              match k with
+              | IAddRaw => (with_content c (Some cur'), Done)
+              | IAddSetters => photon_set2d (with_content c (Some cur')) cur'
+              end
           end
       | Some _, Some _ =>
           match xr_iadd cur a with
           | None => (c, Unmodelled)
           | Some (inr e) => (c, Raise e)
-          | Some (inl cur') => (with_content c (Some cur'), Done)
+          | Some (inl cur') =>
+              match k with
+              | IAddRaw => (with_content c (Some cur'), Done)
+              | IAddSetters => photon_set3d (with_content c (Some cur')) cur'
+              end
           end
       end
   end.
 
-(* `.array` *)
+Definition content_none (c : container) : bool := is_none_arr (c_content c).
+Definition content_xr (c : container) : bool := match c_content c with Some a => is_xr a | None => false end.
+Definition content_np (c : container) : bool := match c_content c with Some a => negb (is_xr a) | None => false end.
+
+Definition ret_content (c : container) : outcome :=
+  match c_content c with Some a => RetArr a | None => RetNone end.
+
+(* `.array` : the guards of the getter in source order, then `return self._array` *)
 Definition read2d (c : container) : outcome :=
-  match c_content c with
-  | None => Raise ValueError
-  | Some a => if is_photon (c_kind c) && is_xr a then Raise TypeError else RetArr a
+  match (if is_photon (c_kind c)
+         then first_fail [ (rd_ph2_none tb, content_none c); (rd_ph2_xr tb, content_xr c) ]
+         else first_fail [ (rd_base tb, content_none c) ]) with
+  | Some e => Raise e
+  | None => ret_content c
   end.
 
 (* photon `.array_3d` *)
 Definition read3d (c : container) : outcome :=
-  match c_content c with
-  | None => Raise ValueError
-  | Some a => if is_xr a then RetArr a else Raise TypeError
+  match first_fail [ (rd_ph3_none tb, content_none c); (rd_ph3_np tb, content_np c) ] with
+  | Some e => Raise e
+  | None => ret_content c
   end.
+
+(* `np.asarray(c)`:
+     ArrayBase.__array__ : `if not isinstance(self._array, np.ndarray): raise TypeError`, else the stored array;
+     Photon.__array__    : `if self._array is None: raise ValueError`, else np.asarray(self.array) *)
+Definition asarray_res (c : container) : outcome :=
+  if is_photon (c_kind c) then
+    match first_fail [ (aa_ph_none tb, content_none c) ] with
+    | Some e => Raise e
+    | None => read2d c
+    end
+  else
+    match first_fail [ (aa_base tb, negb (content_np c)) ] with
+    | Some e => Raise e
+    | None => ret_content c
+    end.
 
 Definition zeros_f64 (r c : nat) : arr :=
   {| a_xr := None; a_shape := [r; c]; a_dt := F64; a_data := repeat (Fin 0) (r * c) |}.
@@ -401,10 +537,14 @@ Definition arr_xr_equals (a b : arr) : bool :=
   end.
 
 (* a == b, as coded in ArrayBase.__eq__ and Photon.__eq__ *)
+Definition same_geom (a b : container) : bool :=
+  Nat.eqb (c_rows a) (c_rows b) && Nat.eqb (c_cols a) (c_cols b).
+
 Definition eq_res (a b : container) : outcome :=
   match c_kind a with
   | Photon =>
       if negb (ckind_eqb (c_kind b) Photon) then RetBool false
+      else if ph_eq_geom tb && negb (same_geom a b) then RetBool false
       else match c_content a, c_content b with
            | None, None => RetBool true
            | None, Some _ => RetBool false
@@ -412,21 +552,30 @@ Definition eq_res (a b : container) : outcome :=
            | Some x, Some y => if is_xr x then RetBool (arr_xr_equals x y) else RetBool (arr_np_equal x y)
            end
   | k =>
-      if negb (ckind_eqb k (c_kind b) && Nat.eqb (c_rows a) (c_rows b) && Nat.eqb (c_cols a) (c_cols b))
+      if negb (ckind_eqb k (c_kind b) && same_geom a b)
       then RetBool false
-      else match c_content a with
-           | None => RetBool true
-           | Some x => match c_content b with
-                       | None => Raise ValueError            (* other.array on an empty container *)
-                       | Some y => RetBool (arr_np_equal x y)
-                       end
+      else match base_eq tb with
+           | EqLeftOnly =>
+               match c_content a with
+               | None => RetBool true
+               | Some x => match c_content b with
+                           | None => Raise ValueError            (* other.array on an empty container *)
+                           | Some y => RetBool (arr_np_equal x y)
+                           end
+               end
+           | EqBothNone =>
+               match c_content a, c_content b with
+               | None, None => RetBool true
+               | Some x, Some y => RetBool (arr_np_equal x y)
+               | _, _ => RetBool false
+               end
            end
   end.
 
 (* detector.<bucket> = o *)
 Definition det_assign (c : container) (o : container) : container * outcome :=
   match det_setter tb (c_kind c) with
-  | SetterNone => (c, Unmodelled)
+  | SetterNone => (c, Raise OtherError)          (* a property without setter: AttributeError *)
   | SetterRaw => (with_content c (c_content o), Done)
   | SetterValidating =>
       match read2d o with
@@ -434,6 +583,35 @@ Definition det_assign (c : container) (o : container) : container * outcome :=
       | Raise e => (c, Raise e)
       | _ => (c, Unmodelled)
       end
+  | SetterDispatch =>
+      if negb (is_photon (c_kind c)) then (c, Unmodelled)        (* only the photon setter has this shape *)
+      else match c_content o with
+           | None => (with_content c None, Done)
+           | Some a =>
+               if is_xr a then
+                 (if is_photon (c_kind o) then photon_set3d c a else (c, Raise OtherError))   (* obj.array_3d *)
+               else photon_set2d c a                                                         (* obj.array *)
+           end
+  end.
+
+(* the stored array would be accepted again by the setter that stores it (what `self.array += x` relies on:
+   the setter runs once more on the object that has just been modified in place) *)
+Definition is_none {A} (o : option A) : bool := match o with None => true | Some _ => false end.
+
+Definition accepted (c : container) : bool :=
+  match c_content c with
+  | None => true
+  | Some a =>
+      if is_photon (c_kind c) then
+        (if is_xr a then is_none (photon_check3d c a) else is_none (photon_check2d c a))
+      else is_none (validate_base c a)
+  end.
+
+(* <class>.empty() *)
+Definition do_empty (c : container) : container :=
+  match empty_of tb (c_kind c) with
+  | EmptyNone => with_content c None
+  | EmptyZeros => with_content c (Some (zeros_f64 (c_rows c) (c_cols c)))
   end.
 
 Definition step (c : container) (o : op) : container * outcome :=
@@ -444,14 +622,14 @@ Definition step (c : container) (o : op) : container * outcome :=
       if is_photon (c_kind c) then (c, Unmodelled)           (* Photon has no update() *)
       else match oa with
            | Some a => base_set c (as_numpy a)
-           | None => (with_content c None, Done)
+           | None => match upd_none tb (c_kind c) with
+                     | UpdCallsEmpty => (do_empty c, Done)
+                     | UpdNone => (with_content c None, Done)
+                     end
            end
-  | OIAdd a | OAdd a => if is_photon (c_kind c) then photon_iadd c a else base_iadd c a
-  | OEmpty =>
-      match c_kind c with
-      | Pixel => (with_content c (Some (zeros_f64 (c_rows c) (c_cols c))), Done)
-      | _ => (with_content c None, Done)
-      end
+  | OIAdd a => if is_photon (c_kind c) then photon_iadd (ph_iadd tb) c a else base_iadd (b_iadd tb) c a
+  | OAdd a => if is_photon (c_kind c) then photon_iadd (ph_add tb) c a else base_iadd (b_add tb) c a
+  | OEmpty => (do_empty c, Done)
   | ORead => (c, read2d c)
   | ORead3D => if is_photon (c_kind c) then (c, read3d c) else (c, Unmodelled)
   | OEq o' => (c, eq_res c o')
@@ -459,12 +637,10 @@ Definition step (c : container) (o : op) : container * outcome :=
   | ODAssign o' => det_assign c o'
   | ODEmpty reset =>
       match c_kind c with
-      | Photon | Signal | Image => (with_content c None, Done)
-      | Pixel => if reset then (with_content c (Some (zeros_f64 (c_rows c) (c_cols c))), Done) else (c, Done)
-      | Phase =>
+      | Phase =>                                         (* MKID.empty, after Detector.empty *)
           match c_content c with
           | Some cur =>
-              if reset then
+              if reset && mkid_phase_zero tb then
                 let cur' := with_data cur (map cell_mul0 (a_data cur)) in
                 match validate_base c cur' with
                 | Some e => (with_content c (Some cur'), Raise e)
@@ -473,7 +649,14 @@ Definition step (c : container) (o : op) : container * outcome :=
               else (c, Done)
           | None => (c, Done)
           end
+      | k =>
+          match d_empty tb k with
+          | DAlways => (do_empty c, Done)
+          | DIfReset => if reset then (do_empty c, Done) else (c, Done)
+          | DNever => (c, Done)
+          end
       end
+  | OAsArray => (c, asarray_res c)
   end.
 
 Definition run (c : container) (ops : list op) : container :=
@@ -554,27 +737,9 @@ Definition eq_spec (a b : container) : bool :=
 Definition content_nan_free (c : container) : bool :=
   match c_content c with None => true | Some a => nan_free (a_data a) end.
 
-(* operations excluded by the partial invariant theorem (the places where the code lets an
-   unvalidated array in) *)
-Definition offending (c : container) (o : op) : bool :=
-  match c_kind c, o with
-  | Photon, (OIAdd a | OAdd a) =>
-      match c_content c with
-      | None => negb (arr_ok Photon (c_rows c) (c_cols c) a)       (* stored as it is *)
-      | Some _ => negb (all_nonneg (a_data a))                      (* no clipping on += *)
-      end
-  | Photon, ODAssign o' => negb (inv_b (with_content c (c_content o')))   (* raw copy of another container's array *)
-  | _, _ => false
-  end.
-
-Fixpoint no_offending (tb : tables) (c : container) (ops : list op) : bool :=
-  match ops with
-  | [] => true
-  | o :: t => negb (offending c o) && no_offending tb (fst (step tb c o)) t
-  end.
-
 (* the source tables are what the property needs: every TYPE_LIST inside the allowed set, every
-   guard of the three validating functions present, both clips present *)
+   guard of the three validating functions present, both clips present, no raw detector setter, Photon += / +
+   through the setters, == of the symmetric shape *)
 Definition guard_present (g : guard) : bool := match g with Some _ => true | None => false end.
 
 Definition type_lists_ok (tb : tables) : bool :=
@@ -589,11 +754,38 @@ Definition guards_ok (tb : tables) : bool :=
 (* Pixel.empty() stores float64 zeros; the setter run again by += must accept them *)
 Definition pixel_zeros_ok (tb : tables) : bool := dtype_mem F64 (type_list tb Pixel).
 
-Definition no_raw_base_setter (tb : tables) : bool :=
-  forallb (fun k => match det_setter tb k with SetterRaw => false | _ => true end) [Pixel; Signal; Image; Phase].
+Definition no_raw_setter (tb : tables) : bool :=
+  forallb (fun k => match det_setter tb k with SetterRaw => false | _ => true end) [Photon; Pixel; Signal; Image; Phase].
+
+(* Photon += / + go through the validating setters on every branch *)
+Definition iadd_through_setters (tb : tables) : bool :=
+  match ph_iadd tb, ph_add tb with IAddSetters, IAddSetters => true | _, _ => false end.
+
+(* ArrayBase += / + never touch the stored array before the result has been validated *)
+Definition base_iadd_on_copy (tb : tables) : bool :=
+  match b_iadd tb, b_add tb with BIOnCopy, BIOnCopy => true | _, _ => false end.
+
+(* == compares emptiness on both sides, and the geometry for photons too *)
+Definition eq_shape_ok (tb : tables) : bool :=
+  match base_eq tb with EqBothNone => ph_eq_geom tb | EqLeftOnly => false end.
+
+(* every getter refuses to return from an empty container *)
+Definition reads_guarded (tb : tables) : bool :=
+  guard_present (rd_base tb) && guard_present (rd_ph2_none tb) && guard_present (rd_ph3_none tb)
+  && guard_present (aa_base tb) && guard_present (aa_ph_none tb).
+
+(* resets leave nothing behind: empty() stores None (zeros are allowed for Pixel only: float64 is not an image
+   type); Detector.empty empties photon, signal and image unconditionally and pixel at least under `reset`;
+   MKID.empty zeroes an initialised phase array under `reset` *)
+Definition resets_ok (tb : tables) : bool :=
+  forallb (fun k => match empty_of tb k with EmptyNone => true | EmptyZeros => false end) [Photon; Signal; Image; Phase]
+  && forallb (fun k => match d_empty tb k with DAlways => true | _ => false end) [Photon; Signal; Image]
+  && match d_empty tb Pixel with DNever => false | _ => true end
+  && mkid_phase_zero tb.
 
 Definition tables_ok (tb : tables) : bool :=
-  type_lists_ok tb && guards_ok tb && pixel_zeros_ok tb && no_raw_base_setter tb.
+  type_lists_ok tb && guards_ok tb && pixel_zeros_ok tb && no_raw_setter tb && iadd_through_setters tb
+  && eq_shape_ok tb && reads_guarded tb && resets_ok tb && base_iadd_on_copy tb.
 
 (* ------------------------------------------------------------------------------------------ case files
    One case = a bucket of a real detector, an operation list and what the implementation showed
@@ -614,6 +806,7 @@ Definition outcome_eqb (a b : outcome) : bool :=
   | Raise x, Raise y => exc_eqb x y
   | RetArr x, RetArr y => arr_eqb x y
   | RetBool x, RetBool y => Bool.eqb x y
+  | RetNone, RetNone => true
   | Unmodelled, Unmodelled => true
   | _, _ => false
   end.
@@ -680,7 +873,7 @@ Definition is_raise (o : outcome) : bool := match o with Raise _ => true | _ => 
 
 Definition reset_ok (k : ckind) (o : op) (before after : option arr) : bool :=
   match o, k with
-  | OEmpty, Pixel | ODEmpty true, Pixel =>
+  | OEmpty, Pixel | ODEmpty true, Pixel | OUpdate None, Pixel =>      (* update(None) is documented as empty() *)
       match after with
       | Some a => forallb (cell_eqb (Fin 0)) (a_data a)
       | None => true
@@ -702,7 +895,7 @@ Definition step_violations (k : ckind) (r c : nat) (o : op) (before : option arr
   (if inv_b cb && negb (inv_b ca) then [1] else [])
   ++ (if is_raise (o_out ob) && negb (state_eqb before (o_state ob)) then [2] else [])
   ++ match o with
-     | ORead | ORead3D =>
+     | ORead | ORead3D | OAsArray =>
          (match before with
           | None => if is_raise (o_out ob) then [] else [3]
           | Some a => match o_out ob with
